@@ -495,7 +495,24 @@ func genLong(t *rapid.T) ReasmCase {
 	return c
 }
 
+// genOverlap: fragments that do NOT partition their messages - overlapping ranges, gaps, a peer
+// that re-fragments differently on retransmission. Only the safety half of the oracle applies
+// unless the fragments happen to tile every message.
+func genOverlap(t *rapid.T) ReasmCase {
+	for {
+		raw := rapid.SliceOfN(rapid.Byte(), 6, 80).Draw(t, "bytes")
+		if c, ok := caseFromBytes(raw); ok {
+			return c
+		}
+	}
+}
+
 func init() {
+	pbt.Register(pbt.Prop[ReasmCase]{
+		Name: "reassembly-overlapping", Quick: 60000, Thorough: 1500000, Gen: genOverlap, Run: runReasm,
+		Rule: "receiver: up to 4 messages of length < 24 with arbitrary (overlapping, gapped, repeated) fragment ranges, 1..3 per record; oracle = reference reassembler, safety half " +
+			"(nothing surfaces while a byte is missing, nothing wrong or extra surfaces); liveness only when the fragments tile every message. distinct = whole case",
+	})
 	pbt.Register(pbt.Prop[ReasmCase]{
 		Name: "reassembly-long-session", Quick: 160, Thorough: 6000, Gen: genLong, Run: runReasm,
 		Rule: "receiver, long session: 150..420 consecutive messages of 2..6 fragments each (more fragments in total than the buffer's 1000-fragment budget, " +
